@@ -14,7 +14,7 @@ import random
 
 from simkit.driver import Check, base_result
 from ref import codec as C
-from checks.worlda import (WorldA, draw_knobs, draw_sched, NODE_HOST, NODE_REALM,
+from checks.worlda import (WorldA, bystander_for, bystander_cost, draw_knobs, draw_sched, NODE_HOST, NODE_REALM,
                            PEER_HOST, PEER_REALM)
 
 APP_ID = 16777251
@@ -104,7 +104,7 @@ class C07(Check):
         knobs["SLEEP_TIMER"] = rng.choice([0.1, 0.3])
         if any(st["op"] == "backlog_dwr" for cn in conns for st in cn["steps"]):
             knobs["SEND_BUFFER_MAXIMUM_SIZE"] = rng.choice([1800, 2400, 4096])
-        return {"mode": mode, "conns": conns, "sched": draw_sched(rng), "knobs": knobs,
+        return {"mode": mode, "conns": conns, "sched": draw_sched(rng), "knobs": knobs, "bystander": bystander_for(index),
                 "net": {"max_latency": rng.choice([0.0005, 0.003]), "p_fragment": rng.choice([0.0, 0.3]),
                         "p_partial_write": rng.choice([0.0, 0.3])},
                 "watchdog": 30, "horizon": 150.0}
@@ -143,7 +143,8 @@ class C07(Check):
         sim = w.sim
         knobs = w.world.knobs
         tick = knobs["STATE_MACHINE_TICKER"]
-        D = knobs["SLEEP_TIMER"] + 2 * knobs["TRACKING_SOCKET_EVENTS_TIMEOUT"] + 1.5 + 60 * tick + 300000 * sim.quantum
+        D = knobs["SLEEP_TIMER"] + 2 * knobs["TRACKING_SOCKET_EVENTS_TIMEOUT"] + 1.5 + 60 * tick + 300000 * sim.quantum + \
+            bystander_cost(scn, sim.quantum)
         violations = []
         stats = {"coalesced_base": 0, "reconnects": 0, "boundary_ids": 0, "answers": 0, "requests": 0,
                  "conns_opened": 0}
@@ -174,6 +175,7 @@ class C07(Check):
                     def on_conn(peer, cn=cn):
                         peer.send(C.cer(PEER_HOST, PEER_REALM, hbh=cn["cer"][0], e2e=cn["cer"][1]))
                     w._peer_connected = on_conn
+                w.maybe_bystander()
                 w.start_node()
                 if not w.wait_state(("I-Open", "R-Open"), 20.0):
                     return
